@@ -108,6 +108,57 @@ def extra_metrics_probe(tier, seed):
     return dict(violations=viol, coverage=dict(metrics_scenarios=len(out), metrics_sample=out[:2]))
 
 
+def extra_erased(tier, seed):
+    """C16: the same scripts run direct and with every operation routed through trait objects."""
+    import hashlib as _h
+    import gen as _gen
+    bins = vlib.build_harness(())
+    n = 60 if tier == "quick" else 600
+    d = os.path.join(vlib.CACHE, "erased", tier)
+    import shutil as _sh
+    _sh.rmtree(d, ignore_errors=True)
+    os.makedirs(d)
+    pairs = []
+    import glob as _glob
+    corpus = []
+    for fam in ("core", "time", "fault"):
+        for p in sorted(_glob.glob(os.path.join(vlib.VERIF, "corpus", fam, "*.scn"))):
+            if "dd=1" not in open(p).readline() and "metrics=1" not in open(p).readline():
+                corpus.append(open(p).read().splitlines())
+    scripts = list(corpus)
+    for fam in ("core", "time", "fault", "hostile"):
+        for i in range(n):
+            lines, _ = _gen.gen_script(seed * 7001 + i * 13 + len(fam), fam)
+            scripts.append(lines)
+    files = []
+    for i, lines in enumerate(scripts):
+        a = os.path.join(d, "s%04d_direct.scn" % i)
+        b = os.path.join(d, "s%04d_erased.scn" % i)
+        open(a, "w").write("\n".join(lines) + "\n")
+        open(b, "w").write("\n".join([lines[0], "mode erased"] + lines[1:]) + "\n")
+        pairs.append((a, b))
+        files += [a, b]
+    vlib.run_director(bins["director"], files)
+    viol, same, acc = [], 0, 0
+    res = vlib.accept_many([b for (_, b) in pairs], "C16")
+    for (a, b), (ok, st, out) in zip(pairs, res):
+        oa, ob = open(a + ".obs").read(), open(b + ".obs").read()
+        mon = open(b + ".mon").read().strip()
+        if oa != ob:
+            la, lb = oa.splitlines(), ob.splitlines()
+            diff = [(x, y) for x, y in zip(la, lb) if x != y][:4]
+            viol.append(dict(what="erased run differs from the direct run", script=open(a).read().splitlines(), first_differences=diff))
+        else:
+            same += 1
+        if mon:
+            viol.append(dict(what="erased-handle monitor", script=open(b).read().splitlines(), failures=mon.splitlines()[:5]))
+        if ok:
+            acc += 1
+        elif ok is False and oa == ob:
+            viol.append(dict(what="erased run not accepted by the model", script=open(b).read().splitlines(), detail=out[-1500:], suffix=" no-failing-input-found"))
+    return dict(violations=viol[:5], coverage=dict(erased_pairs=len(pairs), erased_identical=same, erased_accepted=acc))
+
+
 PROPS = {
     "C01": dict(
         props_file="Props/C01.v",
@@ -171,6 +222,13 @@ PROPS = {
         classify=monitors.classify_stale,
         level_text="The full statement is refuted in the model by a closed witness (C15_refuted) that replays on the real code (known finding, KNOWN_FINDINGS.txt); proved: soundness with respect to the tracked graph (partial: modulo edges of answered-but-not-yet-resumed asks) and that non-actor callers are never tracked; the wait-for graph is compared with the model at every quiescent point through the verification hook (no residue).",
         level_note="Partial: soundness is relative to the tracked graph; 'no residue' is tied by the correspondence and the quiescence monitor, not yet by an invariant proof.",
+    ),
+    "C16": dict(
+        props_file="Props/C16.v",
+        families=[("core", NONE, 60)],
+        projection="C16", monitors=["C04", "C05", "C11"],
+        extra=[extra_erased],
+        level_text="Translation + proof + correspondence: the table of forwarders and conversions is regenerated from the source on every run and proved verbatim / complete in Coq (Props/C16.v); the same director scripts are run direct and with every operation routed through TellHandler / AskHandler / ActorControl and their weak variants (built via From, Box::new, clone_boxed, downgrade, upgrade, as_control, as_weak_control): observations must be identical and accepted by the model.",
     ),
     "C19": dict(
         props_file="Props/C19.v",
